@@ -271,7 +271,9 @@ class BundleFlattener(ElabPass):
             msg += f"Port Signals are `{['.'.join(p.segs) for p in flat_bundle_port.signals.keys()]}`."
             self.fail(msg)
 
-        # Disconnect the old hierarchical Bundle port
+        # Note which connections were made after the old hierarchical Bundle port, and disconnect it
+        names = list(inst.conns.keys())
+        later = names[names.index(portname) + 1 :]
         inst.disconnect(portname)
 
         # Replace the connection to each flattened Signal
@@ -290,6 +292,12 @@ class BundleFlattener(ElabPass):
                 msg += f"but no `{path}`."
                 self.fail(msg)
             inst.connect(flat_port.name, flat.signals[path])
+
+        # Move the later connections back behind the flattened ones. The flattened connections thereby take
+        # the place of the Bundle-valued one, and the order of `inst.conns` does not depend on the order
+        # in which the (hash-ordered) sets of connected ports are visited.
+        for name in later:
+            inst.conns[name] = inst.conns.pop(name)
 
     def flatten_bundle_inst(
         self, bundle_inst: BundleInstance, path: Path
